@@ -29,7 +29,7 @@ def write():
             'evidence_file': '/verif/evidence/%s.json' % p,
             'replay_cmd_template': './check replay {path}',
             'engine': 'contracts',
-            'level_claimed': {'category': c['level'], 'text': c['text'], 'design_ref': c.get('design_ref', 'DESIGN.md section 6')},
+            'level_claimed': {'category': c.get('level', 'proof'), 'text': c['text'], 'design_ref': c.get('design_ref', 'DESIGN.md section 6')},
             'level_note': c['note'],
             'technique': c['technique'],
         })
